@@ -36,6 +36,7 @@ impl Scenario {
             1 => [0.02, 0.3, 0.3, 0.0, 0.5, 0.0],
             2 => [0.5, 0.8, 0.4, 0.3, -0.6, 0.2],
             3 => [0.1, 0.3, 0.3, 0.0, 0.5, 0.0],
+            4 | 5 => [0.0, 0.25, 0.3, 0.0, 0.5, 0.0],
             _ => START,
         }
     }
@@ -44,6 +45,9 @@ impl Scenario {
             1 => [0.02, 0.6, 0.3, 0.0, 0.5, 0.0],
             2 => [-0.7, -0.4, 1.0, -0.5, 0.9, -0.3],
             3 => [0.13, 0.31, 0.3, 0.0, 0.5, 0.0],
+            // the start again up to rounding residue (1e-17, cos(pi/2)) / the start itself
+            4 => [1e-17, 0.25, 0.3, 6.123233995736766e-17, 0.5, -6.123233995736766e-17],
+            5 => [0.0, 0.25, 0.3, 0.0, 0.5, 0.0],
             _ => GOAL,
         }
     }
@@ -380,6 +384,14 @@ pub fn scenarios(thorough: bool) -> Vec<(Scenario, usize, bool)> {
             }
         }
     }
+    // goal = start up to rounding residue, and goal == start
+    for pair in [4usize, 5] {
+        for step in [0.05, 0.3] {
+            for max_try in 0..=2 {
+                v.push((Scenario { layout: 0, limits: 0, step, max_try, pair }, 3, max_try <= 1));
+            }
+        }
+    }
     // sub-milliradian steps on a pair 0.03 rad apart (samples: goal / start only, so every extension stays short)
     for limits in [0usize, 3] {
         for step in [2.5e-4, 8e-4] {
@@ -411,7 +423,7 @@ pub fn run(ctx: &Ctx) -> Report {
     }
     rep.traces_validated = rep.states;
     rep.sample(|| json!({"scenario": {"layout": 1, "limits": 0, "step": 0.3, "max_try": 3}, "samples": [3, 0, 2], "alphabet": (0..5).map(|k| nums(&alphabet(&scs[0].0, k))).collect::<Vec<_>>()}));
-    rep.rule = "layouts {free, pillar between start and goal, plates around the tool at the start} x limits {wide, window, wrapping on J4/J6, non-wrapping beyond +-pi} x step {0.05, 0.3, 2.5; 2.5e-4 and 8e-4 on a pair 0.03 rad apart} x \
+    rep.rule = "layouts {free, pillar between start and goal, plates around the tool at the start} x limits {wide, window, wrapping on J4/J6, non-wrapping beyond +-pi} x step {0.05, 0.3, 2.5; 2.5e-4 and 8e-4 on a pair 0.03 rad apart; goal equal to the start exactly / up to 1e-17 residues} x \
                 max_try 0..D; for each, the tree of sample sequences over the alphabet {goal, start, into the obstacle, around it, far corner, ...} is explored \
                 exhaustively: every execution's consumed positions beyond its prefix branch into every other alphabet member (defaults first); the real \
                 sampler consumes scripted raw draws; oracle on Ok: start/goal bit-equal, every node !collides, consecutive nodes <= 3 steps, nodes within \
